@@ -179,6 +179,41 @@ theorem matrix_inverse_correct (m : M3 K) (hd : m.det ≠ 0) (u : V3 K) :
     m.inverse.mulColumn (m.mulColumn u) = u ∧ m.mulColumn (m.inverse.mulColumn u) = u :=
   ⟨inverse_mulColumn m hd u, mulColumn_inverse m hd u⟩
 
+/-- **An auto-framing camera contains the object.**  `DirectionalCamera` (helpers.go, after the C20
+repair) bisects the camera distance with the containment test evaluated for cameras of the *same*
+field of view as the one it returns; so if the farthest candidate (`maxDist = 10⁴·baseline`) sees
+the whole bounding box inside the margins, the returned camera does too: every corner of the box
+un-projects (with the returned camera's own `Uncaster(1,1)`) into `[margin, 1 − margin)²`. -/
+theorem directional_camera_contains {F : Type} (uncastAt : F → K → V3 K → K × K) (margin : K)
+    (corners : List (V3 K)) (fov : F) (minDist maxDist : K)
+    (h0 : containedBy (uncastAt fov maxDist) margin corners = true) :
+    let cam := dirCamera uncastAt margin corners fov minDist maxDist
+    cam.2 = fov ∧ ∀ p ∈ corners,
+      margin ≤ (uncastAt cam.2 cam.1 p).1 ∧ (uncastAt cam.2 cam.1 p).1 < 1 - margin ∧
+      margin ≤ (uncastAt cam.2 cam.1 p).2 ∧ (uncastAt cam.2 cam.1 p).2 < 1 - margin := by
+  intro cam
+  refine ⟨rfl, ?_⟩
+  have h := dirSearch_ok (fun d => containedBy (uncastAt fov d) margin corners) 32 minDist maxDist h0
+  intro p hp
+  have hp' := (List.all_eq_true.mp h) p hp
+  simp only [Bool.not_eq_true', Bool.or_eq_false_iff, decide_eq_false_iff_not, not_lt, not_le] at hp'
+  exact ⟨hp'.1.1.1, hp'.1.2, hp'.1.1.2, hp'.2⟩
+
+/-- **Record of the second defect found (fixed by the C20 `fix:` commit in helpers.go).**  The old
+`DirectionalCamera` searched with `helperFieldOfView` but returned a camera with the caller's `fov`:
+for a pinhole looking at the square `[-1,1]²` from distance `d` (half-width of the view `f·d`), a
+caller asking for `f = 1/4` got the distance that is right for `f = 1`, and the corner `(1,1)`
+projects to `41/16 > 1` — far outside the image. -/
+theorem old_directional_camera_misses :
+    let uncastAt : Rat → Rat → V3 Rat → Rat × Rat :=
+      fun f d p => (1/2 + p.x / (2 * f * d), 1/2 + p.y / (2 * f * d))
+    let corners : List (V3 Rat) := [⟨-1, -1, 0⟩, ⟨1, -1, 0⟩, ⟨-1, 1, 0⟩, ⟨1, 1, 0⟩]
+    let cam := dirCameraOld uncastAt (1/20) corners 1 (1/4) (1/1000) 10000
+    containedBy (uncastAt 1 10000) (1/20) corners = true ∧
+      containedBy (uncastAt cam.2 cam.1) (1/20) corners = false ∧
+      1 < (uncastAt cam.2 cam.1 ⟨1, 1, 0⟩).1 := by
+  decide +kernel
+
 /-! ## Composite objects -/
 
 /-- **`JoinedObject.Cast` reports the nearest hit among its parts**: a miss iff every part misses,
